@@ -108,3 +108,34 @@ Proof. repeat constructor; simpl; lia. Qed.
 Example repaired_slices_example :
   map fid (run_slices repaired true db5 [(Some 1%Z, Some (-1)%Z); (Some (-1)%Z, None)]) = ["f2"].
 Proof. vm_compute. reflexivity. Qed.
+
+(* ---------- the refutations in the form stated in Props.v ---------- *)
+Lemma exact_refuted :
+  exists p q f, compile current p = Ok q /\ wf_pred p = true /\ wf_fit f = true /\ sem q f <> eval p f.
+Proof.
+  destruct inverted_merge_refuted as [q [Hq [W [Hs He]]]].
+  exists p_inv, q, f0. repeat split; auto. rewrite Hs, He. discriminate.
+Qed.
+Lemma exact_repaired_still_refuted :
+  exists p q f, compile repaired p = Ok q /\ wf_pred p = true /\ wf_fit f = true /\ sem q f <> eval p f.
+Proof.
+  exists p_join. eexists. exists f0. vm_compute. repeat split; discriminate.
+Qed.
+Lemma total_refuted :
+  (exists p, wf_pred p = true /\ compile current p = Err ETypeError) /\
+  (exists p, wf_pred p = true /\ compile current p = Err EAssertion).
+Proof.
+  split; [exists p_notj; exact not_junction_fails | exists p_tab3; exact three_tables_fails].
+Qed.
+Lemma slice_refuted :
+  exists L sl, run_slices current false L [sl] <> spec_slices false L [sl].
+Proof.
+  exists db5, (Some 0%Z, Some 2%Z). intro H. apply (f_equal (map fid)) in H.
+  vm_compute in H. discriminate H.
+Qed.
+Lemma slice_children_refuted' :
+  exists L sl, open_slice sl /\ run_slices current true L [sl] <> spec_slices true L [sl].
+Proof.
+  exists dbc, (Some 1%Z, None). split; [split; simpl; [reflexivity | lia]|].
+  intro H. apply (f_equal (map fid)) in H. vm_compute in H. discriminate H.
+Qed.
